@@ -5,8 +5,10 @@ pytype/pyc/opcodes.py on every run by a fail-closed translator).
 Tie: for every code object of the corpus, of generated programs and of CPython 3.12 standard-library sources the
 real pipeline (pyc.compile_src -> blocks.process_code) is observed; the opcode table / opcode list it builds are
 abstracted and fed to the extracted model; opcode list, blocks, edges, order, rewritten targets and
-compute_predecessors are compared.  wf_ops is monitored on every real opcode list.  A stream of synthetic opcode
-lists / offset tables exercises the error paths of compute_order / _make_opcode_list against the model.
+compute_predecessors are compared; the model of add_pop_block_targets is run on every real opcode list (with the real
+push_exc_block marks) and its block_targets compared with the real ones.  wf_ops and apbt_okb are monitored on every real
+opcode list.  A stream of synthetic opcode lists / offset tables exercises the error paths of compute_order /
+_make_opcode_list / add_pop_block_targets (pre-3.8 and pre-3.11 block opcodes, marked jumps) against the model.
 Oracle: the clauses of the property evaluated directly on the real objects (c16_impl.oracle).
 """
 import ast
@@ -106,6 +108,8 @@ def violates(src, fp):
 
 def all_clauses(ob, opcodes):
   vs = c16_impl.oracle(ob.ops, ob.blocks, ob.order, opcodes)
+  vs += list(ob.apbt_v)
+  vs += c16_impl.predecessor_oracle(ob.blocks, c16_impl.install_hooks()["cfg_utils"])
   try:
     vs += c16_impl.exception_table_oracle(ob.host_code, ob.items, ob.ops, ob.blocks, ob.order, opcodes, ob.ops_line)
   except Exception as e:  # pylint: disable=broad-except
@@ -347,6 +351,213 @@ def synth_template(r):
   return res
 
 
+# ---------------------------------------------------------------------------------------------------
+# synthetic opcode lists against the real add_pop_block_targets (every opcode class it special-cases, incl. the
+# pre-3.8 / pre-3.11 block opcodes, push_exc_block marks, and the assertion / AttributeError paths)
+
+APBT_ERR = {41: "AssertionError", 42: "AssertionError", 43: "AssertionError", 46: "AssertionError",
+            44: "AttributeError", 45: "AttributeError"}
+A_PLAIN = ["NOP", "POP_TOP", "LOAD_FAST"]
+A_JUMPS = ["JUMP_FORWARD", "POP_JUMP_IF_FALSE", "POP_JUMP_IF_TRUE", "JUMP_BACKWARD", "JUMP_ABSOLUTE", "FOR_ITER",
+           "CONTINUE_LOOP"]
+A_SETUPS = ["SETUP_EXCEPT_311", "SETUP_FINALLY", "SETUP_LOOP", "SETUP_WITH", "SETUP_EXCEPT", "SETUP_ASYNC_WITH"]
+A_ENDS = ["RETURN_VALUE", "RERAISE", "RETURN_CONST", "RAISE_VARARGS", "BREAK_LOOP"]
+
+
+def synth_apbt_random(r):
+  n = r.randint(1, 16)
+  spec, pxb = [], []
+  for i in range(n):
+    k = r.random()
+    if k < 0.3:
+      name = r.choice(A_PLAIN)
+    elif k < 0.5:
+      name = r.choice(A_JUMPS)
+    elif k < 0.68:
+      name = r.choice(A_SETUPS)
+    elif k < 0.82:
+      name = "POP_BLOCK"
+    elif k < 0.9:
+      name = r.choice(["RAISE_VARARGS", "BREAK_LOOP"])
+    else:
+      name = r.choice(A_ENDS)
+    tgt = -1
+    if name in A_JUMPS or name in A_SETUPS:
+      tgt = r.randrange(n) if r.random() < 0.93 else -1
+    elif r.random() < 0.03:
+      tgt = r.randrange(n)
+    if name in A_JUMPS and r.random() < 0.25:
+      pxb.append(i)
+    elif r.random() < 0.02:
+      pxb.append(i)
+    spec.append([name, tgt, r.randrange(n) if r.random() < 0.2 else -1, -1])
+  if r.random() < 0.85:
+    spec[-1][0] = r.choice(["RETURN_VALUE", "RETURN_CONST", "RERAISE"])
+    spec[-1][1] = -1
+  return spec, pxb
+
+
+def synth_apbt_template(r):
+  """Nested pre-3.8 loops, pre-3.11 and 3.11+ try blocks, with blocks, raise / break inside them, marked jumps into
+  3.11 ranges; labels resolved at the end; one field perturbed now and then."""
+  spec = []            # [name, label or None]
+  marked = []
+  labels = {}
+  inner = []           # labels inside SETUP_EXCEPT_311 ranges
+  nlab = [0]
+
+  def lab():
+    nlab[0] += 1
+    return "L%d" % nlab[0]
+
+  def here(l):
+    labels[l] = len(spec)
+
+  def emit(name, t=None, px=False):
+    if px:
+      marked.append(len(spec))
+    spec.append([name, t])
+
+  def plain():
+    emit(r.choice(A_PLAIN))
+
+  def body(depth, in_loop):
+    for _ in range(r.randint(1, 2)):
+      frag(depth, in_loop)
+
+  def frag(depth, in_loop):
+    k = r.random()
+    if depth > 3 or k < 0.18:
+      plain()
+    elif k < 0.28:
+      l = lab()
+      emit(r.choice(["POP_JUMP_IF_FALSE", "POP_JUMP_IF_TRUE"]), l)
+      body(depth + 1, in_loop)
+      here(l)
+      plain()
+    elif k < 0.4:
+      out, top, end = lab(), lab(), lab()
+      emit("SETUP_LOOP", out)
+      here(top)
+      emit("FOR_ITER", end)
+      body(depth + 1, True)
+      emit(r.choice(["JUMP_ABSOLUTE", "CONTINUE_LOOP"]), top)
+      here(end)
+      emit("POP_BLOCK")
+      here(out)
+      plain()
+    elif k < 0.52:
+      h, after = lab(), lab()
+      emit(r.choice(["SETUP_FINALLY", "SETUP_FINALLY", "SETUP_EXCEPT"]), h)
+      body(depth + 1, in_loop)
+      emit("POP_BLOCK")
+      emit("JUMP_FORWARD", after)
+      here(h)
+      plain()
+      if r.random() < 0.4:
+        emit("RERAISE")
+      here(after)
+      plain()
+    elif k < 0.7:
+      h, after, mid = lab(), lab(), lab()
+      emit("SETUP_EXCEPT_311", h)
+      plain()
+      here(mid)
+      inner.append(mid)
+      body(depth + 1, in_loop)
+      emit("POP_BLOCK")
+      emit("JUMP_FORWARD", after)
+      here(h)
+      emit("PUSH_EXC_INFO")
+      plain()
+      if r.random() < 0.4:
+        emit("RERAISE")
+      here(after)
+      plain()
+    elif k < 0.77:
+      h = lab()
+      emit(r.choice(["SETUP_WITH", "SETUP_ASYNC_WITH"]), h)
+      body(depth + 1, in_loop)
+      emit("POP_BLOCK")
+      here(h)
+      plain()
+    elif k < 0.86:
+      l = lab()
+      emit("POP_JUMP_IF_FALSE", l)
+      emit("RAISE_VARARGS")
+      here(l)
+      plain()
+    elif k < 0.92 and in_loop:
+      l = lab()
+      emit("POP_JUMP_IF_FALSE", l)
+      emit("BREAK_LOOP")
+      here(l)
+      plain()
+    else:
+      emit(r.choice(["POP_JUMP_IF_TRUE", "JUMP_FORWARD", "JUMP_BACKWARD"]), "INNER", px=r.random() < 0.85)
+      plain()
+
+  plain()
+  for _ in range(r.randint(1, 3)):
+    frag(0, False)
+  emit(r.choice(["RETURN_VALUE", "RETURN_CONST"]))
+  out = []
+  for name, t in spec:
+    if t == "INNER":
+      t = r.choice(inner) if inner else None
+      if t is None:
+        name = "NOP"
+    out.append([name, labels.get(t, -1) if t else -1, r.randrange(len(spec)) if r.random() < 0.1 else -1, -1])
+  pxb = [k for k in marked if out[k][0] != "NOP"]
+  if r.random() < 0.25:
+    k = r.randrange(len(out))
+    what = r.random()
+    if what < 0.4:
+      out[k][1] = r.randrange(len(out)) if r.random() < 0.7 else -1
+    elif what < 0.7:
+      if k in pxb:
+        pxb.remove(k)
+      else:
+        pxb.append(k)
+    elif what < 0.85:
+      out[-1][0] = "NOP"
+    else:
+      out[k][0] = r.choice(["POP_BLOCK", "NOP", "RAISE_VARARGS"])
+  return out, sorted(pxb)
+
+
+def run_real_apbt(spec, pxb, hooks):
+  """-> (model input, real block_targets as text or None, exception class name or None, ops)"""
+  opcodes = hooks["opcodes"]
+  ops = make_real_ops(spec, opcodes)
+  for k in pxb:
+    ops[k].push_exc_block = True
+  line = c16_impl.abstract_ops(ops)
+  try:
+    hooks["orig"][1](ops)            # the real (unhooked) blocks.add_pop_block_targets
+  except Exception as e:  # pylint: disable=broad-except
+    return line, None, type(e).__name__, ops
+  return line, ",".join(str(c16_impl._i(o.block_target)) for o in ops), None, ops   # pylint: disable=protected-access
+
+
+def apbt_direct_oracle(spec, pxb, real_bt, exc, hooks):
+  """The property of add_pop_block_targets evaluated on the real result, without the model: the block-stack walk
+  re-derived declaratively (c16_impl.reference_block_targets) and the block_target clauses."""
+  opcodes = hooks["opcodes"]
+  ops = make_real_ops(spec, opcodes)
+  for o in ops:
+    o.block_target = None
+  want = c16_impl.reference_block_targets(ops, pxb, opcodes)
+  if isinstance(want, str):
+    return None if exc == want else "must raise %s, real %s" % (want, exc or "returned " + str(real_bt))
+  want_s = ",".join(map(str, want))
+  if exc is not None:
+    return "must return %s, real raised %s" % (want_s, exc)
+  if want_s != real_bt:
+    return "block_targets must be %s, real %s" % (want_s, real_bt)
+  return None
+
+
 def make_real_ops(spec, opcodes):
   ops = []
   for i, (name, _, _, _) in enumerate(spec):
@@ -520,12 +731,16 @@ def run(res):
               "END of try/with/loop/match ranges, small and >=256 opargs; SETUP_EXCEPT-first blocks ending in a "
               "jump), CPython 3.12 standard-library sources (quick: a fixed async-heavy core + a seeded sample; "
               "thorough: all files); plus synthetic opcode lists / offset tables (random and template-shaped, incl. malformed "
-              "ones and python_version 3.10/3.11) run through the real compute_order / _make_opcode_list. A code "
+              "ones and python_version 3.10/3.11) run through the real compute_order / _make_opcode_list, and synthetic "
+              "opcode lists with block opcodes of every era (SETUP_LOOP/BREAK_LOOP, SETUP_FINALLY/SETUP_WITH, "
+              "SETUP_EXCEPT_311, POP_BLOCK, RAISE_VARARGS; random and nested-template shaped, with push_exc_block "
+              "marks, stale block_targets and the assertion / AttributeError paths) run through the real "
+              "add_pop_block_targets. A code "
               "object is non-trivial if it has more than one block; distinct by its abstracted opcode list.")
   res.assumptions = [
       "pycnite disassembly and the CPython compiler (inputs of the model are what build_opcodes really produced)",
-      "_add_setup_except and add_pop_block_targets are not modelled: their OUTPUT (synthetic SETUP_EXCEPT_311/"
-      "POP_BLOCK ops, block_target fields) is input of the model; wf_ops is monitored on every real list",
+      "the jump-marking half of _add_setup_except (push_exc_block / pop_exc_block) is not modelled: the marks are an "
+      "INPUT of the add_pop_block_targets model; apbt_okb (bracketing + marks) and wf_ops are monitored on every real list",
       "Python set iteration order does not influence compute_predecessors/order_nodes (the model iterates "
       "outgoing edges in insertion order; the results are compared on every case)",
       "Opcode/Block objects are identified by index/id (translator fails if Opcode defines __eq__/__hash__/__bool__)",
@@ -604,6 +819,8 @@ def run(res):
   n_anext_bad = 0
   t_impl = t_model = 0.0
   n_wfx_bad = [0]
+  apbt_mism = []
+  n_apbt_okb_bad = [0]
   budget_objects = None if thorough else 3200
 
   def flush(batch):
@@ -618,10 +835,26 @@ def run(res):
       lines.append("M 12 %d %s" % (len(it["items_line"].split()) // 4, it["items_line"]))
       lines.append(it["xleg"][0] if it["xleg"] else "X 0 0")
       lines.append(it["cleg"][0] if it["cleg"] else "C 12 0 0")
+      lines.append("A %d %d %s %s" % (it["n_ops"], len(it["pxb"]), it["ops_line"], " ".join(map(str, it["pxb"]))))
     out = model.run(lines)
     t_model += time.time() - t0
     for k, it in enumerate(batch):
-      mo, mm, mx, mc = out[4 * k], out[4 * k + 1], out[4 * k + 2], out[4 * k + 3]
+      mo, mm, mx, mc, ma = out[5 * k], out[5 * k + 1], out[5 * k + 2], out[5 * k + 3], out[5 * k + 4]
+      # add_pop_block_targets: the model's block_targets against the real ones (field 2 of every op of ops_line)
+      aok, ma = ma[1] == "1", ma.split(" ", 1)[1] if " " in ma else ""
+      stats["apbt_okb" if aok else "apbt_okb-false"] += 1
+      f7 = it["ops_line"].split()
+      real_bt = ",".join(f7[7 * j + 2] for j in range(len(f7) // 7))
+      stats["objects_with_block_targets"] += 1 if any(f7[7 * j + 2] != "-1" for j in range(len(f7) // 7)) else 0
+      stats["objects_with_push_exc_block"] += 1 if it["pxb"] else 0
+      if ma != real_bt:
+        apbt_mism.append((it["where"], ma, real_bt, it))
+      if not aok:
+        # the hypothesis of apbt_total_on_bracketed_input (bracketing, marks on every jump into a protected range)
+        n_apbt_okb_bad[0] += 1
+        if n_apbt_okb_bad[0] <= 3:
+          res.obligation("monitor:apbt_okb:" + it["where"], False,
+                         "apbt_okb is false on a real opcode list (marks %s)" % it["pxb"][:20])
       wfx, mx = mx[1] == "1", mx.split(" ", 1)[1] if " " in mx else ""
       wfc, mc = mc[1] == "1", mc.split(" ", 1)[1] if " " in mc else ""
       wf, an, pl, err, md = parse_model(mo)
@@ -642,6 +875,11 @@ def run(res):
           res.obligation("monitor:anext_ok:" + it["where"], False,
                          "a GET_ANEXT jump target is glued to its predecessor in SEND-free code")
       diffs = compare_object(it["real"], mo, it["ops_line"])
+      if ma != real_bt:
+        a, b = ma.split(","), real_bt.split(",")
+        k0 = next((i for i, (x, y) in enumerate(zip(a, b)) if x != y), min(len(a), len(b)))
+        diffs.append("add_pop_block_targets: block_target of op %d: model %s / real %s" % (
+            k0, a[k0] if k0 < len(a) else ma[:40], b[k0] if k0 < len(b) else "?"))
       if mm != it["real_ops_line"]:
         diffs.append("opcode list: model %s / real %s" % (mm[:300], it["real_ops_line"][:300]))
       if it["cleg"] is None:
@@ -721,6 +959,8 @@ def run(res):
       real = (b, e, o, c16_impl.real_preds(ob.blocks, hooks["cfg_utils"]), c16_impl.final_targets(ob.ops))
       has_dup = False
       vs = c16_impl.oracle(ob.ops, ob.blocks, ob.order, opcodes)
+      vs += list(ob.apbt_v)
+      vs += c16_impl.predecessor_oracle(ob.blocks, hooks["cfg_utils"])
       try:
         vs += c16_impl.exception_table_oracle(ob.host_code, ob.items, ob.ops, ob.blocks, ob.order, opcodes, ob.ops_line)
       except Exception as e:  # pylint: disable=broad-except
@@ -735,7 +975,7 @@ def run(res):
         stats["oracle:" + fp] += 1
         if fp not in viol_seen:
           viol_seen[fp] = (label, path, src, (ob.qualname, ob.firstlineno), v)
-      batch.append({"where": where, "n_ops": ob.n_ops, "ops_line": ob.ops_line, "items_line": ob.items_line,
+      batch.append({"where": where, "n_ops": ob.n_ops, "ops_line": ob.ops_line, "items_line": ob.items_line, "pxb": ob.pxb,
                     "real": real, "real_ops_line": ob.real_ops_line, "dup": has_dup, "xleg": ob.xleg,
                     "cleg": c16_impl.composite_case(ob)})
     if len(batch) >= 4000:
@@ -801,6 +1041,59 @@ def run(res):
         if n_syn_mism <= 3:
           res.obligation("correspondence:synthetic-opcode-table", False,
                          "%s :: model %s / real %s" % (inp[:400], mo[:300], (exc or real_line)[:300]))
+  # ---- 4b. synthetic lists against the real add_pop_block_targets ------------------------------------
+  n_apbt = 40000 if thorough else 5000
+  acases = []
+  names_ok = lambda spec: all(hasattr(opcodes, o[0]) for o in spec)
+  for i in range(n_apbt):
+    spec, pxb = synth_apbt_template(r) if i % 2 else synth_apbt_random(r)
+    if not names_ok(spec):
+      res.obligation("generator:apbt-opcode-classes-exist", False, str([o[0] for o in spec if not hasattr(opcodes, o[0])]))
+      break
+    line, real_bt, exc, _ = run_real_apbt(spec, pxb, hooks)
+    acases.append((spec, pxb, line, real_bt, exc))
+    syn_stats["apbt-raises:" + exc if exc else "apbt-returns"] += 1
+  n_apbt_mism = 0
+  n_apbt_total_bad = 0
+  apbt_viol = []
+  for spec, pxb, line, real_bt, exc in acases:
+    why = apbt_direct_oracle(spec, pxb, real_bt, exc, hooks)
+    if why and len(apbt_viol) < 3:
+      apbt_viol.append((spec, pxb, why))
+  if model is not None and acases:
+    out_a = model.run(["A %d %d %s %s" % (len(spec), len(pxb), line, " ".join(map(str, pxb)))
+                       for spec, pxb, line, _, _ in acases])
+    for (spec, pxb, line, real_bt, exc), mo in zip(acases, out_a):
+      aok, mo = mo[1] == "1", mo.split(" ", 1)[1] if " " in mo else ""
+      syn_stats["apbt_okb" if aok else "apbt_okb-false(still compared)"] += 1
+      if mo.startswith("E"):
+        syn_stats["apbt-model-" + mo] += 1
+        ok = exc is not None and APBT_ERR.get(int(mo[1:])) == exc
+      else:
+        ok = exc is None and mo == real_bt
+      res.count(("apbt", line, tuple(pxb)) if (exc is None and any(x != "-1" for x in real_bt.split(","))) else None)
+      if aok and exc is not None:
+        n_apbt_total_bad += 1
+        if n_apbt_total_bad <= 3:
+          res.obligation("monitor:apbt_total", False,
+                         "apbt_okb holds but the real add_pop_block_targets raised %s: %s pxb=%s" % (exc, json.dumps(spec), pxb))
+      if not ok:
+        n_apbt_mism += 1
+        if n_apbt_mism <= 3:
+          res.obligation("correspondence:synthetic-add_pop_block_targets", False,
+                         "spec=%s pxb=%s :: model %s / real %s" % (json.dumps(spec), pxb, mo[:300], (exc or real_bt)[:300]))
+    res.obligation("correspondence:model-vs-add_pop_block_targets(synthetic)", n_apbt_mism == 0,
+                   "%d of %d synthetic lists disagree" % (n_apbt_mism, len(acases)))
+    res.obligation("monitor:apbt_total-on-synthetic-lists", n_apbt_total_bad == 0, "%d lists" % n_apbt_total_bad)
+    res.obligation("correspondence:model-vs-add_pop_block_targets(code objects)", not apbt_mism,
+                   "%d of %d code objects disagree" % (len(apbt_mism), n_objects))
+    res.obligation("monitor:apbt_okb-on-every-real-opcode-list", n_apbt_okb_bad[0] == 0,
+                   "%d of %d lists are not properly bracketed / marked" % (n_apbt_okb_bad[0], n_objects))
+  for spec, pxb, why in apbt_viol:
+    names = sorted({o[0] for o in spec if o[0] in ("POP_BLOCK", "RAISE_VARARGS", "BREAK_LOOP")})
+    res.violation("add_pop_block_targets-differs-from-the-block-stack-walk:" + "+".join(names), why,
+                  {"kind": "apbt", "fingerprint": "add_pop_block_targets-differs-from-the-block-stack-walk",
+                   "spec": spec, "pxb": pxb, "why": why})
   c16_impl.uninstall_hooks()
   mark("synthetic")
 
@@ -863,6 +1156,16 @@ def replay(res, path):
   from pytype.pyc import opcodes  # pylint: disable=import-outside-toplevel
   warnings.simplefilter("ignore")
   d = json.load(open(path))["replay"]
+  if d.get("kind") == "apbt":
+    hooks = c16_impl.install_hooks()
+    line, real_bt, exc, _ = run_real_apbt(d["spec"], d["pxb"], hooks)
+    why = apbt_direct_oracle(d["spec"], d["pxb"], real_bt, exc, hooks)
+    print("opcode list (name, target, stale block_target, -):", d["spec"])
+    print("push_exc_block marks:", d["pxb"])
+    print("real add_pop_block_targets:", "raised " + exc if exc else "block_targets " + real_bt)
+    print("oracle:", why or "agrees with the block-stack walk")
+    c16_impl.uninstall_hooks()
+    return 1 if why else 0
   src = d.get("source") or read_source(d["file"])
   fp = d["fingerprint"]
   obs, err = c16_impl.observe_source(src, d.get("file") or "replay.py")
